@@ -26,7 +26,10 @@ RULE = ('sets of 2-5 database chemicals (Water, Ethanol, Methanol, Propanol, Hex
         'float32 array; kernels run through .py_func on exact Fractions with seeded rational stand-ins (affine, Moebius, '
         'quadratic) for exp, log, **0.75 and compared exactly with the generated Gallina terms at option Q (gamma, x after, '
         'group_psis buffer, exception kind); derived arrays of __new__ (rs, qs, chem_Qfractions, group_mask) compared with '
-        'the model; compiled call compared with py_func at 1e-12 and its x-after with the exact prediction.  non-trivial = '
+        'the model; compiled call compared with py_func at 1e-12 and its x-after with the exact prediction; the direct oracle '
+        '(gamma_i = 1 at x_i = 1 to 1e-9, Gibbs-Duhem by central finite differences to 1e-5 relative along every e_a - e_b, '
+        'all permutations n <= 4, no-group => exactly 1, ideal models = 1, x untouched, .f = __call__) is evaluated on every case '
+        'and must hold.  non-trivial = '
         'the group path was taken (object is not the ideal fallback) and the run returned values; distinct = case hash')
 ASSUMPTIONS = [
     'float rounding, nan and inf are not modelled (the `if np.isnan(value): continue` branch is never taken in the model); '
@@ -361,7 +364,7 @@ def n_with_groups(case):
     e = env()
     return sum(1 for n in case['chems'] if getattr(e['chems'][n], case['cls']))
 
-def run_impl(case):
+def _run_impl(case):
     e = env(); ac = e['ac']; eq = e['eq']
     if case['kind'] == 'lgc':
         XQ.SI = [(k, F(a), F(b)) for k, a, b in case['si']]
@@ -397,6 +400,14 @@ def run_impl(case):
     out['derived'] = derived(G, case)
     return out
 
+def run_impl(case):
+    """observations for the model comparison, plus the property itself measured on the real objects
+    (pure limit, Gibbs-Duhem by finite differences, permutations, no-group, ideal, x untouched, f = call):
+    clauses that no theorem covers (residual part) are thereby checked on every run, not only after a break."""
+    out = _run_impl(case)
+    out['oracle'] = oracle(case)
+    return out
+
 # ------------------------------------------------------------------ model side
 def Fs(s): return F(s)
 def cqv(v): return qlist([F(s) for s in v])
@@ -411,6 +422,9 @@ def cobs(o):
     return f'(ObsOk {cqv(o["gamma"])} {cqv(o["x_after"])} {cqm(o["gpsis"])})'
 
 def coq_case(case, out):
+    return f'({_coq_case(case, out)} && {cbool(out.get("oracle") is None)})'
+
+def _coq_case(case, out):
     if case['kind'] == 'lgc':
         v = 'None' if out['values'] is None else f'(Some {cqv(out["values"])})'
         return (f'(chk_lgc {csi(case["si"])} {cbool(case["modified"])} {qlist(case["qs"])} {qlist(case["rs"])} '
